@@ -18,6 +18,25 @@ def stem(n):
         n = s
 
 
+def _operands(e):
+    """rendered non-constant operands of the comparisons in a condition"""
+    out = set()
+    e = cf.strip_casts(e)
+    if not isinstance(e, dict):
+        return out
+    if e.get('k') == 'bin' and e['op'] in ('&&', '||'):
+        return _operands(e['l']) | _operands(e['r'])
+    if e.get('k') == 'un' and e.get('op') == '!':
+        return _operands(e['e'])
+    if e.get('k') == 'bin' and e['op'] in ('==', '!=', '<', '<=', '>', '>='):
+        for side in (e['l'], e['r']):
+            if cf.evalc(side) is None:
+                out.add(guards.lv(side))
+        return out
+    out.add(guards.lv(e))
+    return out
+
+
 def twin_ifs(P):
     """yield (func, block id, terminator, [features of arm 0, features of arm 1]); features = (callee stems, raw callees, conditions)"""
     seen = set()
@@ -53,8 +72,14 @@ def twin_ifs(P):
                             if tt and tt['kind'] in ('IfStmt', 'WhileStmt', 'ForStmt', 'DoStmt') and ('fullcond' in tt or 'cond' in tt):
                                 conds[(tt['kind'], guards.canon(guards.expand(f, tt.get('fullcond') or tt.get('cond'), x)))] += 1
                     feats.append((calls, raw, conds))
-                (c0, r0, _), (c1, r1, _) = feats
+                (c0, r0, k0), (c1, r1, k1) = feats
                 if c0 and c0 == c1 and r0 != r1:
+                    # an else-if chain re-tests the selector inside an arm: that is a dispatch over one discriminant, not a pair of twins
+                    with guards.in_function(f, abstract=True):
+                        sel = _operands(guards.expand(f, t.get('fullcond') or t.get('cond') or {}, bid))
+                    nested = ' '.join(k[1] for k in list(k0) + list(k1))
+                    if any(o and o in nested for o in sel):
+                        continue
                     yield f, bid, t, feats
 
 
